@@ -1,6 +1,7 @@
 CONSTANTS
-  MaxId = 8
+  MaxId = 16
   ZeroIncBug = FALSE
+  OpenCleanupBug = FALSE
   DeadlineBug = "none"
   Want = {"C24_StaysUp", "C24_NoViolation"}
 SPECIFICATION TSpec
